@@ -19,8 +19,9 @@ oracle   : independent of the model — server still serving, serve task alive, 
 
 case format
   server case : {"kind": "tcp"|"tcp-tls"|"udp", "oc": "coro"|"gen", "sched": "mid"|"late"|"nohold",
-                 "fault": null | {"pos": <position>, "tree": <tree>, "k": n, "gen": g, "queued": 0|1 (UDP h_post: a datagram
-                                 of F is queued behind the one whose handling fails)}}
+                 "eager": bool (the event loop's task factory is asyncio.eager_task_factory),
+                 "fault": null | {"pos": <position>, "tree": <tree>, "k": n, "gen": g, "queued": n (UDP h_post: n datagrams
+                                 of F are queued behind the one whose handling fails)}}
                 position: oc_coro oc_pre oc_post oc_thrown h_pre h_post h_thrown h_gexit od setup tls_hs   (injected tree)
                           rst tls_garbage tls_stall tls_close                                               (real set-up faults)
                 tree: "ClassName" | ["g", tree, …] | "@thrown" (re-raise the parse error thrown in) | "@closed_send"
@@ -88,7 +89,8 @@ ASSUMPTIONS = [
 RULE = (
     "case = server kind (tcp, tcp-tls, udp) x fault (exception tree x hook position | real set-up fault) x schedule (H2 held "
     "during the fault or not, H1 in its first/second generator, on_connection as coroutine or generator, k-th request, "
-    "generator index) | malformed input sent by the faulty client itself (how it is cut into segments x what the handler "
+    "generator index, 0-3 datagrams of the faulty UDP address queued behind the failing one, default / eager task factory) "
+    "| malformed input sent by the faulty client itself (how it is cut into segments x what the handler "
     "does with the parse error x number of valid requests before x StreamProtocol/BufferedStreamProtocol x while "
     "on_connection runs / yield with a timeout / half-close right behind; UDP: malformed datagram alone or queued behind a "
     "valid one); quick = every Exception leaf class x every position of the generated nesting map once, + groups "
@@ -156,7 +158,7 @@ _baseline: dict[str, list[str]] = {}
 
 
 def baseline(case: dict) -> list[str]:
-    key = f"{case['kind']}/{case.get('oc', 'coro')}/{case.get('sched', 'mid')}/{case.get('proto', 'copy')}"
+    key = f"{case['kind']}/{case.get('oc', 'coro')}/{case.get('sched', 'mid')}/{case.get('proto', 'copy')}/{int(bool(case.get('eager')))}"
     if key not in _baseline:
         b = dict(case)
         b["fault"] = None
@@ -206,9 +208,24 @@ def model_input(case: dict, real: list[str]):
     return f"iso {case['kind']} {case.get('oc', 'coro')}", [f"fault {pos} {f.get('k', 1)} {f.get('gen', 1)} {toks}"]
 
 
+def _many_queued(case: dict) -> bool:
+    """UDP, two or more datagrams queued behind the failing one: they use up the fresh generator (2 requests each), so the
+    number of generators F ends up with is not the one the model's hook log (written for at most one) predicts"""
+    f = case.get("fault") or {}
+    return case.get("kind") == "udp" and f.get("pos") == "h_post" and int(f.get("queued", 0)) >= 2
+
+
+def model_post(case: dict, lines: list[str]) -> list[str]:
+    if _many_queued(case):
+        return [x for x in lines if not x.startswith("hooks ")]
+    return lines
+
+
 def real_for_diff(case: dict, real: list[str]) -> list[str]:
     if case["kind"] == "unit":
         return real
+    if _many_queued(case):
+        real = [x for x in real if not x.startswith("hooks ")]
     out = [x for x in real if x.startswith("log ")]
     for x in real:
         if x.startswith("serve-end "):
@@ -373,15 +390,16 @@ def nontrivial(case: dict, real: list[str]) -> str | None:
     f = case.get("fault")
     if not f:
         return None
+    kind = case["kind"] + ("+eager" if case.get("eager") else "")
     if f.get("tree") is None:
-        return f"{case['kind']}/{f['pos']}"
+        return f"{kind}/{f['pos']}"
     if _get(real, "fault-raised ") != "1":
         return None
     if f.get("bad"):
         b = f["bad"]
         extras = "+".join(k for k in ("login_glued", "ytimeout", "oc_busy", "halfclose") if b.get(k)) or "plain"
-        return f"{case['kind']}/bad/{f['pos']}/{b.get('how')}/{b.get('react')}/{case.get('proto', 'copy')}/{extras}"
-    return f"{case['kind']}/{f['pos']}/{_shape(f['tree'])}/{_family(f['tree'])}"
+        return f"{kind}/bad/{f['pos']}/{b.get('how')}/{b.get('react')}/{case.get('proto', 'copy')}/{extras}"
+    return f"{kind}/{f['pos']}/{_shape(f['tree'])}/{_family(f['tree'])}" + (f"/queued{f['queued']}" if f.get("queued") else "")
 
 
 def known_key(case: dict, real: list[str], why: str) -> str:
@@ -390,6 +408,8 @@ def known_key(case: dict, real: list[str], why: str) -> str:
     if case["kind"] == "unit":
         return f"unit,{case['op']},{case.get('filter', '-')}"
     f = case.get("fault") or {}
+    if case.get("eager"):
+        case = {**case, "kind": case["kind"] + "+eager"}
     if f.get("bad"):
         return f"kind={case['kind']},pos={f.get('pos')},bad={f['bad'].get('how')}/{f['bad'].get('react')},proto={case.get('proto', 'copy')}"
     return f"kind={case['kind']},pos={f.get('pos')},leaf={'+'.join(sorted(set(R.leaves(f['tree'])))) if f.get('tree') and not str(f['tree']).startswith('@') else f.get('tree')}"
@@ -411,6 +431,8 @@ def shrink(case: dict) -> Iterator[dict]:
         return
     if case.get("sched", "mid") != "nohold":
         yield {**case, "sched": "nohold"}
+    if case.get("eager"):
+        yield {k: v for k, v in case.items() if k != "eager"}
     if f.get("bad"):
         b = f["bad"]
         for k2 in ("ytimeout", "oc_busy", "halfclose", "login_glued"):
@@ -429,6 +451,8 @@ def shrink(case: dict) -> Iterator[dict]:
         yield {**case, "fault": {**f, "k": 1}}
     if f.get("queued"):
         yield {**case, "fault": {**f, "queued": 0}}
+        if int(f["queued"]) > 1:
+            yield {**case, "fault": {**f, "queued": 1}}
     t = f.get("tree")
     if t is not None and not isinstance(t, str):
         for c in t[1:]:
@@ -471,9 +495,27 @@ def server_case(kind: str, pos: str, tree: Any, rng: random.Random, **kw: Any) -
         f["gen"] = kw.get("gen") or rng.choice([1, 1, 2])
     if kind == "udp" and pos == "h_post" and (kw.get("queued") or rng.random() < 0.4) and \
             (isinstance(tree, str) and tree.startswith("@") or R.is_exception_tree(tree)):
-        f["queued"] = 1         # (with a non-Exception leaf the re-spawn races with the death of the task group: not generated)
+        # (with a non-Exception leaf the re-spawn races with the death of the task group: not generated)
+        f["queued"] = int(kw.get("queued") or rng.choice([1, 1, 2, 3]))
     c["fault"] = f
+    _draw_eager(c, rng, kw)
     return c
+
+
+EAGER_SHARE = 0.2
+
+
+def _draw_eager(c: dict, rng: random.Random, kw: dict) -> None:
+    """(own draw, last) a fifth of the server cases run on a loop that creates its tasks with asyncio.eager_task_factory;
+    only where the property promises something (every leaf an Exception): with a non-Exception leaf the order in which the
+    dying task group and the eagerly started tasks see each other is not the model's"""
+    want = kw.get("eager")
+    if want is None:
+        want = rng.random() < EAGER_SHARE
+    f = c.get("fault") or {}
+    t = f.get("tree")
+    if want and (t is None or isinstance(t, str) and t.startswith("@") or R.is_exception_tree(t)):
+        c["eager"] = True
 
 
 def bad_case(kind: str, pos: str, how: str, react: str, rng: random.Random, **kw: Any) -> dict:
@@ -499,6 +541,7 @@ def bad_case(kind: str, pos: str, how: str, react: str, rng: random.Random, **kw
         if kind == "tcp" and kw.get("halfclose", rng.random() < 0.2):
             b["halfclose"] = True
     c["fault"] = {"pos": pos, "tree": "@thrown", "gen": v // 2 + 1, "bad": b}
+    _draw_eager(c, rng, kw)
     return c
 
 
@@ -514,6 +557,25 @@ def bad_matrix(rng: random.Random) -> Iterator[dict]:
         for how in R.BAD_HOWS_UDP:
             for v in ((0, 1, 2) if how == "alone" else (1, 2, 3)):
                 yield bad_case("udp", "h_thrown", how, react, rng, v=v)
+
+
+def eager_block(rng: random.Random) -> Iterator[dict]:
+    leaf = lambda: rng.choice(["ValueError", "UserError", "Exception", "RuntimeError", "OSError", "ClientClosedError"])  # noqa: E731
+    for queued in (1, 2, 3):
+        for gen, k in ((1, 1), (1, 2), (2, 1)):
+            yield server_case("udp", "h_post", leaf() if queued != 2 else ["g", leaf(), "ClientClosedError"], rng,
+                              sched=rng.choice(["mid", "late", "nohold"]), queued=queued, gen=gen, k=k, eager=True)
+    for pos in UDP_POS:
+        yield server_case("udp", pos, leaf(), rng, sched="mid", eager=True)
+    yield bad_case("udp", "h_thrown", "burst", "reraise", rng, v=1, sched="mid", eager=True)
+    yield bad_case("udp", "h_thrown", "burst", "catch", rng, v=2, sched="nohold", eager=True)
+    yield bad_case("udp", "h_thrown", "alone", "propagate", rng, v=1, sched="mid", eager=True)
+    for kind in ("tcp", "tcp-tls"):
+        for pos in ("oc_coro", "h_pre", "h_post", "h_gexit", "od", "setup"):
+            yield server_case(kind, pos, leaf(), rng, sched=rng.choice(["mid", "late"]), eager=True)
+        yield bad_case(kind, "h_thrown", "glued", "reraise", rng, v=1, proto="copy", sched="mid", eager=True)
+        yield bad_case(kind, "h_thrown", "glued2", "catch", rng, v=2, proto="buffered", sched="mid", eager=True)
+    yield server_case("tcp-tls", "tls_hs", leaf(), rng, sched="mid", eager=True)
 
 
 def unit_cases(rng: random.Random, n: int) -> Iterator[dict]:
@@ -550,6 +612,9 @@ def generate(rng: random.Random, tier: str, boost: int) -> Iterator[dict]:
     yield bad_case("tcp-tls", "h_thrown", "glued2", "catch", rng, v=2, proto="buffered", sched="mid")
     yield bad_case("tcp", "oc_thrown", "bad_first", "propagate", rng, proto="buffered", sched="nohold")
     yield bad_case("udp", "h_thrown", "burst", "reraise", rng, v=1, sched="mid")
+    # … and the same servers on an eager-task loop: UDP datagrams of F queued behind the one whose handling fails (the
+    # task-done hook re-spawns the client coroutine: its first step runs inside start_soon()), every UDP position, TCP / TLS
+    yield from eager_block(rng)
     # every leaf class alone through every unit filter (exhaustive over the alphabet)
     for leaf in R.EXC_LEAVES + R.BASE_LEAVES:
         for flt in UNIT_FILTERS:
@@ -582,7 +647,9 @@ def generate(rng: random.Random, tier: str, boost: int) -> Iterator[dict]:
             # real set-up faults
             for pos in REAL_SETUP.get(kind, []):
                 for sched in (("mid", "late", "nohold") if thorough else ("mid", "nohold")):
-                    yield {"kind": kind, "oc": rng.choice(["coro", "gen"]), "sched": sched, "fault": {"pos": pos, "tree": None}}
+                    c = {"kind": kind, "oc": rng.choice(["coro", "gen"]), "sched": sched, "fault": {"pos": pos, "tree": None}}
+                    _draw_eager(c, rng, {})
+                    yield c
             # the boundary: non-Exception leaves (no promise; correspondence with the model only)
             bpos = positions(kind) if thorough else [p for p in positions(kind) if p in ("h_post", "od", "setup", "tls_hs", "oc_coro")]
             if kind == "tcp-tls" and not thorough:
